@@ -61,6 +61,10 @@ Definition c02_spec_ok (c : agg_case) : bool :=
   negb (is_panic (ag_out c)) &&
   (* at most f present values: never an aggregate *)
   (if (n_present_t tvs <=? ag_f c)%nat then is_err (ag_out c) else true) &&
+  (* quote aggregator: a value is usable only if it is a Quote with bid <= benchmark <= ask; at most f usable: no aggregate *)
+  (if (ag_kind c =? 1) &&
+      (length (filter (fun p => match fst p with Some (SQuote a b k) => quote_valid a b k | _ => false end) tvs) <=? ag_f c)%nat
+   then is_err (ag_out c) else true) &&
   (* the same multiset in another order gives the same numeric result *)
   res_rel sval_eqv (ag_out c) (ag_out_perm c) &&
   (if ag_kind c =? 0 then
